@@ -23,7 +23,7 @@ func init() {
 			"nonce, value/payload, destination, attached function and attached arguments — extracted as linear forms a·i + b·n + c over loop index and decoded count — equal those the parser binds to ESDTTokenName, ESDTTokenNonce, ESDTValue, RcvAddr, CallFunction " +
 			"and CallArgs. R4: the destination-side guards accept what the sender side emits (emitted argument count as a linear form versus the pre-guard). Does NOT decide: numeric equality of parsed values and ledger diffs; function names containing '@'.",
 		Trusted: []string{"hex.EncodeToString / hex.DecodeString are inverse", "A-protomsg"},
-		Rules:   []func(*Ctx){c10r1, c10r3},
+		Rules:   []func(*Ctx){c10r1, c10r3, c10r4},
 	})
 }
 
@@ -746,4 +746,19 @@ func constantInt64(k *types.Const) (int64, bool) {
 	var v int64
 	_, err := fmt.Sscan(s, &v)
 	return v, err == nil
+}
+
+// c10r4: the two clauses shared with C12-R3 and C01-R3 that this property rests on as well: the tokenizer splits its input untouched (else a message
+// whose last argument is empty does not parse into what was encoded), and the destination accepts / the count announces what the sender emits.
+func c10r4(c *Ctx) {
+	sub := NewCtx(c.P, c.Property, c.Tier)
+	c12r3(sub)
+	c01r3(sub)
+	c.Rule("C10-R4", "the tokenizer splits its input untouched; the destination side accepts, and the announced count equals, what the sender side emits", 5)
+	for _, o := range sub.obs {
+		if o.Rule == "C12-R3" && (strings.HasPrefix(o.Construct, "strings.Split") || strings.HasPrefix(o.Construct, "hex.DecodeString")) || o.Rule == "C01-R3" {
+			o.Rule = "C10-R4"
+			c.add(o)
+		}
+	}
 }
